@@ -14,6 +14,7 @@ def run(prog, rep):
                        'call is dropped (R-ERR).')
     r_key.run(prog, rep)
     r_key.run_handles_only(prog, rep)
+    r_key.run_getters(prog, rep)
     r_codec.run_string_enum(prog, rep, 'nix::LinkType', 'nix::hdf5::linkTypeToString', 'nix::hdf5::linkTypeFromString', 'LINK')
     r_codec.run_string_enum(prog, rep, 'nix::DimensionType', 'nix::hdf5::dimensionTypeToStr', 'nix::hdf5::dimensionTypeFromStr', 'DIM')
     r_codec.run_dim_open(prog, rep)
